@@ -15,12 +15,26 @@ def run(ctx):
     res.assume("'every schema-valid file is accepted' rests on the matcher accepting every valid word (C02) and is not decided; only the no-silent-loss half is")
     res.irrelevant_prefixes += ['R-TAB.T6|ref-use']      # a dropped use="required" loses nothing of the input (that is C04)
     c03.run_attribute_part(ctx)            # key spaces: xml:/xlink: references (KF-09, KF-10), declarations without type (KF-17)
+    _data_driven_ladder(ctx)
     consumption(ctx)
     no_swallowing(ctx)
     tag_to_class(ctx)
     text_only_stripped(ctx)
     reserved_names(ctx)
     binary_input(ctx)
+
+
+def _data_driven_ladder(ctx):
+    """The conversion attempts written as a loop over a literal sequence of converter functions (`for convert in (str, float, int): try: ...`): which
+    conversion is tried under which exception is then data, not control flow - the consumption / no-swallowing rules read control flow and do not apply."""
+    conv = _parser_funcs(ctx)[0]
+    callables = {'int', 'float', 'str', 'bool'} | set(conv.module.functions)
+    for n in ast.walk(conv.node):
+        if isinstance(n, ast.For) and isinstance(n.iter, (ast.Tuple, ast.List)) and any(isinstance(s, ast.Try) for b in n.body for s in ast.walk(b)):
+            names = {x.id for e in n.iter.elts for x in ast.walk(e) if isinstance(x, ast.Name)}
+            if names & callables:
+                raise AnalysisError(f"{conv.fq}: the conversion attempts are a loop over the converter functions {sorted(names & callables)} (line {n.lineno}): the ladder is "
+                                    "data, not control flow; the parser rules do not apply to this form (idiom not understood)")
 
 
 def _parser_funcs(ctx):
@@ -91,6 +105,12 @@ def no_swallowing(ctx):
                 if isinstance(st, ast.Assign) and isinstance(st.value, ast.Call) and unparse(st.value.func) in class_exprs:
                     continue
                 if isinstance(st, ast.Expr) and isinstance(st.value, ast.Call) and unparse(st.value.func) == 'setattr':
+                    continue
+                # a conversion of the text prepared for the next attempt (`number = float(text)`): it either yields the value that is tried next or raises
+                # out of the handler - nothing is swallowed or substituted
+                conv_ = st.value if isinstance(st, (ast.Expr, ast.Assign)) else None
+                if isinstance(conv_, ast.Call) and isinstance(conv_.func, ast.Name) and conv_.func.id in ('float', 'int', 'str') and len(conv_.args) == 1 and \
+                        isinstance(conv_.args[0], ast.Name) and not conv_.keywords and (isinstance(st, ast.Expr) or all(isinstance(t_, ast.Name) for t_ in st.targets)):
                     continue
                 ok = False
                 why = short(st)
